@@ -47,6 +47,11 @@ def run(tier, replay=None):
     run = C.Run(PID, tier, "fault_enumeration")
     cases = R.run_instances(run, "c08_" + tier, instances(tier),
                             lambda c: R.is_perturbed(c) and R.has_roll(c))
+    # long behaviours (hundreds of records in one history), sampled by TLC's simulation mode
+    deep = 400 if tier == "quick" else 1000
+    R.deep_runs(run, "c08", [R.inst("deep_w13", trig="size", base=1, count=3, limit=1, sizes=(1, 2), pre="PreNone", maxrec=deep, faults=12, crash=6, restart=6, obst=6),
+                        R.inst("deep_pre", trig="pre", count=2, sizes=(1, 2), pre="PreNone", maxrec=deep, faults=10, crash=6, restart=4, obst=6, encfail=3),
+                        R.inst("deep_post_t", trig="post", append=False, count=2, sizes=(1, 2), pre="PreNone", maxrec=deep, faults=10, crash=6, restart=4, obst=4)], 40 if tier == "quick" else 400)
     if not run.mismatches and run.nontrivial < 50:
         raise C.ToolError("vacuous run")
     run.exhaustive = True
@@ -56,7 +61,7 @@ def run(tier, replay=None):
                 "every rotation of the history, in both open modes, with size / pre / post triggers, followed by "
                 "every continuation; crash images are directory copies taken inside the hook callback and a new "
                 "appender is built over the copy; non-trivial = perturbed behaviours in which a rotation happened")
-    run.assumptions = ["compress step is atomic; death inside gzip output or inside the cross-mount copy fallback is out of scope (the fallback itself runs in the cross-mount materialisation when /dev/shm is a separate filesystem)",
+    run.assumptions = ["long behaviours (400 / 1000 records with faults, crashes, restarts, obstacles and encoder failures) are sampled by TLC -simulate (40 / 400 per instance), not enumerated", "compress step is atomic; death inside gzip output or inside the cross-mount copy fallback is out of scope (the fallback itself runs in the cross-mount materialisation when /dev/shm is a separate filesystem)",
                        "crash = process death with the page cache intact (log4rs never fsyncs)",
                        "fault hooks: rotate.shift(i) / rotate.final fail_points return an io::Error"]
     return run.finish()
